@@ -17,41 +17,36 @@ use rand_core::block::{BlockRngCore, CryptoBlockRng};
 use rand_core::{CryptoRng, RngCore, SeedableRng};
 
 pub mod oracle {
-    pub const NS: usize = 12;
-    pub const ND: usize = 16;
+    //! direct-mapped table: the slot of a stream is `seed % NS` (seeds in probminhash are small
+    //! structured integers, concrete in every unwinding of the densification loops, so slots - and
+    //! with them all table subscripts - stay concrete for the symbolic executor).  Two different seeds
+    //! falling into one slot within a harness is reported by an assertion (never silently merged).
+    pub const NS: usize = 61;
+    pub const ND: usize = 8;
 
     pub static mut NUSED: usize = 0;
+    pub static mut USED: [bool; NS] = [false; NS];
     pub static mut KEYS: [[u64; 4]; NS] = [[0; 4]; NS];
     pub static mut KIND: [u8; NS] = [0; NS];
     pub static mut FILLED: [usize; NS] = [0; NS];
     pub static mut DRAWS: [[u64; ND]; NS] = [[0; ND]; NS];
-    pub static mut LEMIRE_MAX: u32 = 8;
     pub static mut NDRAWN: usize = 0;
+    /// set by native non-termination replays only: draw from a counter instead of `kani::any()`
+    pub static mut NATIVE_FALLBACK: bool = false;
 
     #[cfg(kani)]
     fn fresh() -> u64 {
-        let v: u64 = kani::any();
-        // rand's ChaCha-backed BlockRng serves u32 words; Uniform<usize> in 32-bit
-        // mode takes the *low* word of next_u64 first?  No: it calls next_u32().
-        // Our next_u32 returns the upper half of one cell, see below.
-        let hi = (v >> 32) as u32;
-        // unrolled (no loop: harness unwind bounds must not depend on the model)
-        macro_rules! lemire {
-            ($r:expr) => {
-                if unsafe { LEMIRE_MAX } >= $r {
-                    let r: u32 = $r;
-                    kani::assume(hi.wrapping_mul(r) >= r.wrapping_neg() % r);
-                }
-            };
+        if unsafe { NATIVE_FALLBACK } {
+            return unsafe { fallback() };
         }
-        lemire!(2);
-        lemire!(3);
-        lemire!(4);
-        lemire!(5);
-        lemire!(6);
-        lemire!(7);
-        lemire!(8);
-        v
+        kani::any()
+    }
+
+    unsafe fn fallback() -> u64 {
+        let mut z = (NDRAWN as u64).wrapping_add(0x9e3779b97f4a7c15);
+        z = (z ^ (z >> 30)).wrapping_mul(0xbf58476d1ce4e5b9);
+        z = (z ^ (z >> 27)).wrapping_mul(0x94d049bb133111eb);
+        (z ^ (z >> 31)) | 1
     }
 
     #[cfg(not(kani))]
@@ -66,47 +61,33 @@ pub mod oracle {
 
     pub fn stream(kind: u8, key: [u64; 4]) -> usize {
         unsafe {
-            macro_rules! probe {
-                ($i:expr) => {
-                    if $i < NUSED
-                        && KIND[$i] == kind
-                        && KEYS[$i][0] == key[0]
-                        && KEYS[$i][1] == key[1]
-                        && KEYS[$i][2] == key[2]
-                        && KEYS[$i][3] == key[3]
-                    {
-                        return $i;
-                    }
-                };
+            let slot = ((key[0] ^ key[1] ^ key[2] ^ key[3]) % (NS as u64)) as usize;
+            if USED[slot] {
+                assert!(
+                    KIND[slot] == kind && KEYS[slot][0] == key[0] && KEYS[slot][1] == key[1] && KEYS[slot][2] == key[2] && KEYS[slot][3] == key[3],
+                    "chacha oracle model: two seeds share a table slot in this harness"
+                );
+            } else {
+                USED[slot] = true;
+                KIND[slot] = kind;
+                KEYS[slot] = key;
+                FILLED[slot] = 0;
+                NUSED += 1;
             }
-            probe!(0);
-            probe!(1);
-            probe!(2);
-            probe!(3);
-            probe!(4);
-            probe!(5);
-            probe!(6);
-            probe!(7);
-            probe!(8);
-            probe!(9);
-            probe!(10);
-            probe!(11);
-            assert!(NUSED < NS, "chacha oracle model: too many streams for this harness");
-            let id = NUSED;
-            KIND[id] = kind;
-            KEYS[id] = key;
-            FILLED[id] = 0;
-            NUSED += 1;
-            id
+            slot
         }
     }
 
     pub fn draw(id: usize, ctr: usize) -> u64 {
         unsafe {
-            assert!(id < NUSED, "chacha oracle model: bad stream id");
+            if NATIVE_FALLBACK {
+                // native non-termination replay: an endless deterministic stream, no table
+                NDRAWN += 1;
+                return fallback();
+            }
+            assert!(id < NS && USED[id], "chacha oracle model: bad stream id");
             assert!(ctr < ND, "chacha oracle model: too many draws for this harness");
-            // cells are created strictly in order (no holes, no loop)
-            assert!(ctr <= FILLED[id], "oracle model: draws must be consumed in order");
+            assert!(ctr <= FILLED[id], "chacha oracle model: draws must be consumed in order");
             if FILLED[id] == ctr {
                 DRAWS[id][ctr] = fresh();
                 FILLED[id] = ctr + 1;
@@ -119,6 +100,9 @@ pub mod oracle {
     pub fn nb_streams() -> usize {
         unsafe { NUSED }
     }
+    pub fn is_used(slot: usize) -> bool {
+        unsafe { USED[slot] }
+    }
     pub fn key_of(id: usize) -> [u64; 4] {
         unsafe { KEYS[id] }
     }
@@ -128,8 +112,21 @@ pub mod oracle {
     pub fn filled(id: usize) -> usize {
         unsafe { FILLED[id] }
     }
-    pub fn set_lemire_max(r: u32) {
-        unsafe { LEMIRE_MAX = r }
+    /// number of open streams whose (single-word) seed lies in lo..=hi and whose kind matches; loop-free
+    pub fn count_seeds_in(lo: u64, hi: u64, kind: u8) -> usize {
+        let mut n = 0;
+        unsafe {
+            macro_rules! probe {
+                ($($i:expr),*) => { $( if USED[$i] && KIND[$i] == kind && KEYS[$i][0] >= lo && KEYS[$i][0] <= hi && KEYS[$i][1] == 0 && KEYS[$i][2] == 0 && KEYS[$i][3] == 0 { n += 1; } )* };
+            }
+            probe!(0,1,2,3,4,5,6,7,8,9,10,11,12,13,14,15,16,17,18,19,20,21,22,23,24,25,26,27,28,29,30,31,32,33,34,35,36,37,38,39,40,41,42,43,44,45,46,47,48,49,50,51,52,53,54,55,56,57,58,59,60);
+        }
+        n
+    }
+
+    /// slot a seed_from_u64 seed maps to
+    pub fn slot_of_seed(seed: u64) -> usize {
+        (seed % (NS as u64)) as usize
     }
 }
 
